@@ -103,10 +103,17 @@ func (m *Matcher) checkForBadPropertyVariables(pattern map[string]interface{}) e
 	if len(pattern) <= 1 {
 		return nil
 	}
+	// Complain about the same key every time (the text ends up in
+	// the bindings of the error state, which should not differ
+	// between two walks of the same input).
+	bad := ""
 	for k := range pattern {
-		if m.IsVariable(k) {
-			return errors.New(`can't have a variable as a key ("` + k + `") with other keys`)
+		if m.IsVariable(k) && (bad == "" || k < bad) {
+			bad = k
 		}
+	}
+	if bad != "" {
+		return errors.New(`can't have a variable as a key ("` + bad + `") with other keys`)
 	}
 	return nil
 }
